@@ -72,6 +72,22 @@ def match_close(src: str, i: int, open_ch='{', close_ch='}') -> int:
     return -1
 
 
+def find_functions(src: str, qualname: str):
+    """all out-of-class definitions `qualname(...) ... { body }` (overloads, e.g. constructors) as (params, body)"""
+    out = []
+    pos = 0
+    while True:
+        pat = re.compile(r'(?<![\w:])' + re.escape(qualname) + r'\s*\(')
+        m = pat.search(src, pos)
+        if not m:
+            return out
+        r = find_function(src[m.start():], qualname)
+        p_close = match_close(src, m.end() - 1, '(', ')')
+        if r is not None and p_close > 0:
+            out.append((src[m.end():p_close], r[1]))
+        pos = m.end()
+
+
 def find_function(src: str, qualname: str):
     """Return (header, body) of the out-of-class definition `qualname(...) ... { body }`
     in comment-stripped source, or None.  qualname e.g. 'PessimisticLock::LockS' or
